@@ -58,6 +58,7 @@ pub enum Op {
     Clone { clone_from: bool },
     Roundtrip,
     FromElements,
+    FilterElements { seed: u64, keep_n: u32, keep_e: u32 },
     Capacity { which: u8, n: usize },
     BulkNodes(usize),
     BulkEdges { k: usize, seed: u64 },
@@ -97,6 +98,7 @@ impl Op {
             Op::Clone { .. } => ("clone", 25),
             Op::Roundtrip => ("convert_roundtrip", 26),
             Op::FromElements => ("from_elements", 27),
+            Op::FilterElements { .. } => ("filter_elements", 32),
             Op::Capacity { .. } => ("capacity", 28),
             Op::BulkNodes(_) => ("bulk_add_nodes", 29),
             Op::BulkEdges { .. } => ("bulk_add_edges", 30),
@@ -147,7 +149,7 @@ impl History for AdjEngine {
         };
         let fault_permille = *rng.pick(&[0u32, 0, 50, 150, 400]);
         let mut disabled = 0u64;
-        for k in 8..=31u64 {
+        for k in 8..=32u64 {
             if rng.chance(1, 4) {
                 disabled |= 1 << k;
             }
@@ -429,6 +431,9 @@ pub fn check_obs(m: &AdjModel, o: &Obs, plan: &ObsPlan) -> Result<(), (&'static 
             ensure!("neighbors_undirected", sorted(&no.nbr_und) == sorted(&und), "neighbors_undirected({}) = {:?}, expected multiset {:?}", a, no.nbr_und, und);
             let wu: Vec<usize> = no.walk_und.iter().map(|x| x.1).collect();
             ensure!("walker_undirected", sorted(&wu) == sorted(&und), "detached walker of neighbors_undirected({}) = {:?}, expected multiset {:?}", a, wu, und);
+            let mut wpairs: Vec<(usize, usize)> = outl.iter().map(|e| (e.0, e.2)).collect();
+            wpairs.extend(inl.iter().filter(|e| e.1 != a).map(|e| (e.0, e.1)));
+            ensure!("walker_undirected_pairs", sorted(&no.walk_und_pairs) == sorted(&wpairs), "detached walker next() of neighbors_undirected({}) = {:?}, expected multiset {:?}", a, no.walk_und_pairs, wpairs);
             ensure!("edges", sorted(&no.edges) == sorted(&outl), "edges({}) = {:?}, expected {:?}", a, no.edges, outl);
             ensure!("edges_directed_outgoing", sorted(&no.edges_out) == sorted(&outl), "edges_directed({}, Outgoing) = {:?}, expected {:?}", a, no.edges_out, outl);
             ensure!("edges_directed_incoming", sorted(&no.edges_in) == sorted(&inl), "edges_directed({}, Incoming) = {:?}, expected {:?}", a, no.edges_in, inl);
@@ -449,7 +454,19 @@ pub fn check_obs(m: &AdjModel, o: &Obs, plan: &ObsPlan) -> Result<(), (&'static 
             ensure!("walker_incoming", sorted(&no.walk_in) == sorted(&w), "detached walker (Incoming) at {} = {:?}, expected multiset {:?}", a, no.walk_in, w);
             let wu: Vec<usize> = no.walk_und.iter().map(|x| x.1).collect();
             ensure!("walker_undirected", sorted(&wu) == sorted(&nb), "detached walker of neighbors_undirected({}) = {:?}, expected multiset {:?}", a, wu, nb);
+            ensure!("walker_undirected_pairs", sorted(&no.walk_und_pairs) == sorted(&w), "detached walker next() of neighbors_undirected({}) = {:?}, expected multiset {:?}", a, no.walk_und_pairs, w);
         }
+    }
+    // next(), next_node() and next_edge() of one walker kind agree step by step
+    for no in &o.nodes {
+        let a = no.a;
+        let wu: Vec<usize> = no.walk_und.iter().map(|x| x.1).collect();
+        let pn: Vec<usize> = no.walk_und_pairs.iter().map(|x| x.1).collect();
+        let pe: Vec<usize> = no.walk_und_pairs.iter().map(|x| x.0).collect();
+        ensure!("walker_next_node", wu == pn, "walker of neighbors_undirected({}): next_node() gives {:?} but next() gives nodes {:?}", a, wu, pn);
+        ensure!("walker_next_edge", no.walk_und_edges == pe, "walker of neighbors_undirected({}): next_edge() gives {:?} but next() gives edges {:?}", a, no.walk_und_edges, pe);
+        let oe: Vec<usize> = no.walk_out.iter().map(|x| x.0).collect();
+        ensure!("walker_next_edge", no.walk_out_edges == oe, "walker of neighbors_directed({}, Outgoing): next_edge() gives {:?} but next() gives edges {:?}", a, no.walk_out_edges, oe);
     }
     // raw chains (Graph only)
     for (a, co, ci) in &o.chains {
@@ -621,11 +638,11 @@ fn gen_op(rng: &mut Rng, cx: &Ctx, stable: bool) -> Op {
             64..=66 => Op::SetEdgeW { e: pick_edge(rng, cx), how: *rng.pick(&[WHow::WeightMut, WHow::IndexMut, WHow::DataMapMut, WHow::FrozenIndexMut]) },
             67..=68 => {
                 let kind = rng.below(4) as u8;
-                // kind: 0 = (n,n) 1 = (n,e) 2 = (e,n) 3 = (e,e)
+                // kind: 0 = (n,n) 1 = (n,e) 2 = (e,n) 3 = (e,e); +4 = through Frozen
                 let i = if kind < 2 { pick_node(rng, cx, false) } else { pick_edge(rng, cx) };
                 let j = if kind == 0 || kind == 2 { pick_node(rng, cx, false) } else { pick_edge(rng, cx) };
                 let j = if rng.chance(1, 8) && (kind == 0 || kind == 3) { i } else { j };
-                Op::IndexTwice { kind, i, j }
+                Op::IndexTwice { kind: if rng.chance(1, 3) { kind + 4 } else { kind }, i, j }
             }
             69 => Op::RewriteNodeW,
             70 => Op::RewriteEdgeW,
@@ -657,7 +674,13 @@ fn gen_op(rng: &mut Rng, cx: &Ctx, stable: bool) -> Op {
             }
             90 => Op::Clone { clone_from: rng.chance(1, 2) },
             91..=93 => Op::Roundtrip,
-            94 => Op::FromElements,
+            94 => {
+                if rng.chance(1, 2) {
+                    Op::FromElements
+                } else {
+                    Op::FilterElements { seed: rng.next_u64(), keep_n: *rng.pick(&[500u32, 800, 1000, 1000]), keep_e: *rng.pick(&[500u32, 800, 1000]) }
+                }
+            }
             95 => Op::Capacity { which: rng.below(7) as u8, n: rng.below(50) },
             _ => Op::AddEdge { a: pick_node(rng, cx, false), b: pick_node(rng, cx, false), mode: EdgeMode::Add },
         };
@@ -1000,6 +1023,8 @@ fn apply<S: AdjSut>(sut: &mut S, cx: &mut Ctx, op: &Op, kind: &'static str) -> R
             }
         }
         Op::IndexTwice { kind: k, i, j } => {
+            let frozen = *k & 4 != 0;
+            let k = &(*k & 3);
             let (i, j) = ((*i).min(mx), (*j).min(mx));
             let first_is_node = *k < 2;
             let second_is_node = *k == 0 || *k == 2;
@@ -1016,7 +1041,7 @@ fn apply<S: AdjSut>(sut: &mut S, cx: &mut Ctx, op: &Op, kind: &'static str) -> R
                 // assertion / lookup happens before any write is handed out.
                 expect_unchanged = true;
             }
-            match (catch(|| sut.index_twice(*k, i, j, w1, w2, false)), ok) {
+            match (catch(|| sut.index_twice(*k, i, j, w1, w2, frozen)), ok) {
                 (Ok(()), true) => {
                     if first_is_node { cx.m.nodes[i].as_mut().unwrap().w = w1 } else { cx.m.edges[i].as_mut().unwrap().w = w1 }
                     if second_is_node { cx.m.nodes[j].as_mut().unwrap().w = w2 } else { cx.m.edges[j].as_mut().unwrap().w = w2 }
@@ -1337,6 +1362,63 @@ fn apply<S: AdjSut>(sut: &mut S, cx: &mut Ctx, op: &Op, kind: &'static str) -> R
                 let e = cx.m.edge(i).unwrap();
                 fresh.push_edge(rank[&e.a], rank[&e.b], e.w);
             }
+            cx.m = fresh;
+            need_adopt = true;
+        }
+        Op::FilterElements { seed, keep_n, keep_e } => {
+            let mut nw = cx.next_w;
+            let log = match catch(|| sut.filter_elements_replace(*seed, *keep_n, *keep_e, &mut nw)) {
+                Ok(l) => l,
+                Err(p) => fail!("panic", "filter_elements / from_elements panicked: {}", p),
+            };
+            // the same stream, computed from the model
+            let live_n = cx.m.live_nodes();
+            let live_e = cx.m.live_edges();
+            let nodes: Vec<(usize, u32)> = live_n.iter().map(|&i| (i, cx.m.node(i).unwrap().w)).collect();
+            let edges: Vec<(usize, usize, u32)> = live_e.iter().map(|&i| { let e = cx.m.edge(i).unwrap(); (e.a, e.b, e.w) }).collect();
+            let stream = crate::engines::adjsut::element_stream(nodes, edges, *seed & 1 == 1);
+            let mut fresh = AdjModel::new(cx.m.compact, cx.m.directed, cx.m.max_index);
+            let mut w = cx.next_w;
+            let mut exp_log = Vec::new();
+            let (mut npos, mut epos) = (0usize, 0usize);
+            // new rank of every stream position of a node, None when dropped
+            let mut new_rank: Vec<Option<usize>> = Vec::new();
+            for elt in stream {
+                match elt {
+                    petgraph::data::Element::Node { weight } => {
+                        let keep = crate::engines::adjsut::keep_decision(weight, *seed, *keep_n);
+                        let mut nwt = weight;
+                        if keep {
+                            w += 1;
+                            nwt = w;
+                            new_rank.push(Some(fresh.nodes.len()));
+                            fresh.push_node(nwt);
+                        } else {
+                            new_rank.push(None);
+                        }
+                        exp_log.push((true, npos, weight, keep, nwt));
+                        npos += 1;
+                    }
+                    petgraph::data::Element::Edge { source, target, weight } => {
+                        let keep = crate::engines::adjsut::keep_decision(weight, *seed ^ 0xE, *keep_e);
+                        let mut nwt = weight;
+                        if keep {
+                            w += 1;
+                            nwt = w;
+                            if let (Some(a), Some(b)) = (new_rank[source], new_rank[target]) {
+                                fresh.push_edge(a, b, nwt);
+                            }
+                        }
+                        exp_log.push((false, epos, weight, keep, nwt));
+                        epos += 1;
+                    }
+                }
+            }
+            cx.next_w = nw.max(w);
+            if log != exp_log {
+                fail!("closure-args", "filter_elements showed its closure {:?} (is_node, position, weight, kept, new weight), the element stream is {:?}", log, exp_log);
+            }
+            cx.acc.probe_if(fresh.nodes.len() < live_n.len(), "filter_elements_dropped_node");
             cx.m = fresh;
             need_adopt = true;
         }
